@@ -195,6 +195,6 @@ SUBS = [Sub("delete", judge, strategy=case_st, quick=3000, thorough=40000, shard
 
 MANIFEST = {
     "technique": "property-based testing over generated ACL programs: delete_shadow() judged by an exact cover witness per removed entry (refsem inclusion), an order-preserving embedding of the survivors, report equality and idempotence; boundary packet sampling as a cross-check",
-    "text": "exploration: on thousands (quick) / 40 000 (thorough) generated ACLs every removed ACE had an earlier same-action ACE that provably includes it (so no packet's first-match decision can change), survivors kept text / numbers / order / block, the returned report equalled shading(), and a second removal found nothing",
+    "text": "exploration: on thousands (quick) / 40 000 (thorough) generated ACLs every removed ACE had an earlier same-action ACE that provably includes it (so no packet's first-match decision can change), survivors kept text / numbers / order / block, the returned report equalled shading(), and a second removal found nothing; a third of the cases first query the report, then edit a referenced group everywhere in place, then remove",
     "note": "trusted: lib/refsem.py inclusion algebra and first-match semantics; ACLs <= 12 lines, k<=3; native spelling only; packet sampling is a cross-check, the deciding step is the witness",
 }
